@@ -21,6 +21,14 @@ target regexes resolve (target_regex and --auto-delayed-regex; before / after / 
 shape of the defect repaired by 01f48fb.  Oracle on every A1 case (no model involved): a task that process() added to
 TaskControl.tasks is a name of the command line (sub-task placeholder) or `_regex_target_<f>:<k>` with k a delayed task of
 the LOADED task list; nothing but the four documented exceptions escapes (shape `subtask-placeholder-regex`).
+Spellings of one path (round D, seeded C12d): targets / file_dep / selection elements / default_tasks also come as
+`./out/a.o`, `out//a.o`, `out/../out/a.o`, `out/./a.o`, `./f1`, absolute `/w/out/b.o`, `/w//out/b.o` ..  The code looks a
+target up by the EXACT string (control.py 106-112, 131-133, 211): two spellings are two names.  The interning below is by
+exact string too, so the model (names opaque) sees them as different names.  Scripted cases (every seed): a target declared
+in non-normal form selected by exactly that string / by the normal form / through default_tasks / with --single, file_dep in
+the same and in another spelling.  Oracle (no model), shape `target-spelling`: a declared target string that is an element
+of the command line selects its producer (never InvalidCommand on it); a string that is only ANOTHER spelling of a declared
+target (and no task, no task list with delayed creators) is rejected.
 Encoding (list Z): strings are interned to ids (task names first, in task_list order);
   init error [1; kind; a; b; c]   (kind 0 duplicate name, 1/2/3 dangling task_dep/setup/calc_dep, 4 common target)
   not found  [2; id]              ok [0; selected..; -1; {task; task_dep..; -1}..; -2; {file; producer}..]
@@ -37,6 +45,10 @@ explicitly named pos_arg task are its values (checked against what its action re
 are consumed.  Directed runs include `d:1 <file>` where <file> is resolved by target_regex / --auto-delayed-regex to a task
 of the creator d (known target) or to nothing (unknown target: exit 3 once the creator ran, no traceback); a started task
 whose name has two colons without being on the command line, or a traceback, is reported as `subtask-placeholder-regex`.
+Targets and file_dep are written in several spellings (absolute, relative to the cwd of the run, `./x`, `sub/../x`,
+`<dir>//x`, `<dir>/./x`); selections / default_tasks name a target by the declared string (producer + closure expected) or by
+another spelling of the same file (exit 3, nothing runs); a file_dep spelled differently from the declared target is no
+implicit dependency.  A failure on such an input is reported under the shape `target-spelling`.
 """
 import fnmatch, io, os, re, sys
 import common
@@ -111,6 +123,20 @@ PARAMS = [dict(name='flag', short='f', type=bool, default=False), dict(name='val
 OPT_TOKENS = {'flag': ['-f'], 'val': ['-v', 'val1'], 'lng': ['--lng']}
 
 
+# one file, several strings: os.path.normpath maps every member of a group to the key
+SPELLINGS = {'out/a.o': ['./out/a.o', 'out//a.o', 'out/../out/a.o', 'out/./a.o'],
+             'f1': ['./f1', 'out/../f1'],
+             'x.o': ['./x.o', './/x.o'],
+             '/w/out/b.o': ['/w//out/b.o', '/w/out/../out/b.o', '/w/./out/b.o']}
+assert all(os.path.normpath(x) == k and x != k for k, v in SPELLINGS.items() for x in v)
+
+
+def other_spellings(f):
+    """the other strings of the pool that name the same path as f"""
+    k = os.path.normpath(f)
+    return [x for x in [k] + SPELLINGS.get(k, []) if x != f]
+
+
 def gen_a(rng):
     plain = rng.sample(['a', 'b', 'c', 'ab', 'b2', 'x.o', 'a*', 'f1', '_regex_target_q'], rng.randrange(1, 6))
     specs = []   # (name, kind, parent)
@@ -127,9 +153,15 @@ def gen_a(rng):
     if rng.random() < 0.15:
         rng.shuffle(specs)
     names = [s[0] for s in specs]
-    files = ['f0', 'f1', 'f2', 'f3', 'f4', 'x.o', 'out/a.o', 'q1']
+    base_files = ['f0', 'f1', 'f2', 'f3', 'f4', 'x.o', 'out/a.o', 'q1']
+    files = list(base_files)
+    spell = rng.random() < 0.45     # a case with several spellings of the same paths
+    if spell:
+        files += rng.sample(['/w/out/b.o'] + [x for v in SPELLINGS.values() for x in v], rng.randrange(2, 8))
     free_targets = list(files)
     rng.shuffle(free_targets)
+    if spell:   # the spelled names are handed out as targets first (pop() takes from the end)
+        free_targets.sort(key=lambda f: (f not in base_files) + rng.random())
     tasks = []
     defect = rng.choices(['none', 'dupname', 'baddep', 'badsetup', 'badcalc', 'duptarget'], weights=[80, 4, 4, 3, 3, 5])[0]
     for nm, kind, parent in specs:
@@ -183,6 +215,8 @@ def gen_a(rng):
     def element():
         """one item of a command line: a name / pattern / target / unknown name, possibly followed by option tokens"""
         r = rng.random()
+        if spell and rng.random() < 0.3:
+            r = 0.45
         if r < 0.40:
             nm = rng.choice(names)
             toks = [nm]
@@ -191,6 +225,12 @@ def gen_a(rng):
                     toks += OPT_TOKENS[prm['name']]
             return toks
         if r < 0.52:
+            declared = [f for t in tasks for f in t['targets']]
+            if spell and declared and rng.random() < 0.7:   # a declared target: by that very string / by another spelling of it
+                f = rng.choice(declared)
+                if rng.random() < 0.35 and other_spellings(f):
+                    f = rng.choice(other_spellings(f))
+                return [f]
             return [rng.choice(files)]
         if r < 0.72:
             return [rng.choice(PATTERNS + ['a?', '[ab]'])]
@@ -206,7 +246,7 @@ def gen_a(rng):
     sel = selection(rng.choice([0, 1, 1, 2, 2, 3, 4]))
     default = None if rng.random() < 0.5 else selection(rng.choice([0, 1, 2, 3]))
     return dict(tasks=tasks, sel=sel, sel_none=rng.random() < 0.12, default=default,
-                single=rng.random() < 0.4, auto=rng.random() < 0.3, defect=defect)
+                single=rng.random() < 0.4, auto=rng.random() < 0.3, defect=defect, spell=spell)
 
 
 def scripted_a():
@@ -238,7 +278,70 @@ def scripted_a():
         out.append(dict(tasks=tasks, sel=sel, sel_none=False, default=None, single=False, auto=auto, defect='none', scripted=True))
     # through DOIT_CONFIG default_tasks and with --single
     out.append(dict(tasks=one(None), sel=[], sel_none=False, default=['c:1', 'f1'], single=True, auto=True, defect='none', scripted=True))
+    # spellings of one path: the target table is keyed by the declared string (seeded C12d keyed it by os.path.normpath)
+    sp = lambda tg, fd=(): [t('p'), t('gen', task_dep=['p'], targets=list(tg)), t('use', file_dep=list(fd)), t('z')]
+    rows = [
+        # (tasks, selection, default_tasks, --single)
+        (sp(['./out/gen.txt']), ['./out/gen.txt'], None, False),                       # by exactly the declared string
+        (sp(['./out/gen.txt']), ['out/gen.txt'], None, False),                         # normal form of it: another name
+        (sp(['out//gen.txt']), ['z', 'out//gen.txt'], None, False),
+        (sp(['out//gen.txt']), ['out/gen.txt', 'z'], None, False),
+        (sp(['a/../gen.txt']), ['a/../gen.txt'], None, True),
+        (sp(['a/../gen.txt']), ['gen.txt'], None, False),
+        (sp(['/w/./out/gen.txt']), ['/w/./out/gen.txt', 'z'], None, False),            # absolute
+        (sp(['/w/out/gen.txt']), ['/w//out/gen.txt'], None, False),                    # declared in normal form, asked for otherwise
+        (sp(['./out/gen.txt']), [], ['./out/gen.txt'], False),                         # through default_tasks
+        (sp(['./out/gen.txt']), [], ['z', 'out/gen.txt'], False),
+        (sp(['./out/gen.txt'], ['./out/gen.txt']), ['use'], None, False),              # file_dep in the declared spelling: implicit task_dep
+        (sp(['./out/gen.txt'], ['out/gen.txt']), ['use'], None, False),                # .. in another spelling: none
+        (sp(['out/gen.txt'], ['./out/gen.txt', 'out//gen.txt']), ['use', 'out/gen.txt'], None, False),
+        (sp(['out/gen.txt', './out/gen.txt']), ['./out/gen.txt', 'out/gen.txt'], None, False),   # both strings declared by one task
+        ([t('p', targets=['out/gen.txt']), t('gen', targets=['./out/gen.txt', 'out//gen.txt']), t('use', file_dep=['out//gen.txt', 'out/gen.txt'])],
+         ['out//gen.txt', 'out/gen.txt', './out/gen.txt'], None, False),              # three strings, two producers
+        (sp(['./out/gen.txt']), ['g*', './out/gen.txt', 'out/./gen.txt'], None, False),   # after a glob; the last one is unknown
+    ]
+    for tasks, sel, default, single in rows:
+        out.append(dict(tasks=tasks, sel=sel, sel_none=False, default=default, single=single, auto=False, defect='none',
+                        scripted='spelling', spell=True))
     return out
+
+
+def oracle_spelling_a(case, obs1, info):
+    """selection by target is by the declared string, from the input alone (no model) -> (what, shape) or None.
+    Only elements that are certainly read as selection elements are judged: no earlier token names a task declaring
+    pos_arg (its values), the token before is no option token (its value)."""
+    if obs1[0] in (1, 4, 97, 98):      # load error / a task's option parser refused: nothing selected by anybody
+        return None
+    declared = {}
+    for t_ in case['tasks']:
+        for f in t_['targets']:
+            if f in declared:
+                return None            # common target: a load error is due
+            declared[f] = t_['name']
+    byn = {t_['name']: t_ for t_ in case['tasks']}
+    eff = [] if case['sel_none'] else list(case['sel'])
+    nf = info.get('not_found')
+    if nf is not None and nf in declared and nf not in byn:
+        return ('TaskControl.process(%r): InvalidCommand(not_found=%r), but %r is the target task %r declares (targets=%r): '
+                'a target named exactly as declared selects its producer' % (eff, nf, nf, declared[nf], byn[declared[nf]]['targets']),
+                'target-spelling')
+    if obs1[0] != 0:
+        return None
+    delayed = any(t_['loader'] is not None for t_ in case['tasks'])
+    for i, f in enumerate(eff):
+        if f in byn or '*' in f or f.startswith('-'):
+            continue
+        if any(x in byn and byn[x].get('pos_arg') for x in eff[:i]) or (i and eff[i - 1].startswith('-')):
+            continue
+        if f in declared:
+            if declared[f] not in info.get('selected', []):
+                return ('TaskControl.process(%r) selected %r: the producer %r of the target %r is not among them'
+                        % (eff, info.get('selected'), declared[f], f), 'target-spelling')
+        elif not delayed and any(os.path.normpath(g) == os.path.normpath(f) for g in declared):
+            same = [g for g in declared if os.path.normpath(g) == os.path.normpath(f)]
+            return ('TaskControl.process(%r) selected %r: %r is no task and no declared target (only another spelling of %r): '
+                    'it must be rejected with InvalidCommand' % (eff, info.get('selected'), f, same), 'target-spelling')
+    return None
 
 
 def oracle_a(case, obs1, info):
@@ -387,8 +490,11 @@ def run_a1(case, I, info=None):
         before = list(tc.tasks)
         tc.process(sel)
         info['created'] = [n for n in tc.tasks if n not in before]
+        info['selected'] = list(tc.selected_tasks)
         return enc_control(tc.tasks, tc.targets, tc.selected_tasks, I)
     except (InvalidDodoFile, InvalidTask, InvalidCommand, CmdParseError) as e:
+        if isinstance(e, InvalidCommand):
+            info['not_found'] = e.not_found
         return enc_exception(e, I)
     except BaseException as e:   # noqa
         info['exc'] = '%s: %s' % (type(e).__name__, e)
@@ -473,7 +579,28 @@ def part_a(ctx, out):
         if bad:
             out.violations.append(dict(what=bad[0], shape=bad[1], case=dict(part='A', tasks=case['tasks'], sel=case['sel'], sel_none=case['sel_none'],
                                                                                 auto=case['auto'], observed=dict(created=info.get('created'), exc=info.get('exc')))))
-        if case.get('scripted'):
+        bad = oracle_spelling_a(case, obs1, info)
+        if bad:
+            out.violations.append(dict(what=bad[0], shape=bad[1], case=dict(part='A', tasks=case['tasks'], sel=case['sel'], sel_none=case['sel_none'],
+                                                                                auto=case['auto'], observed=dict(selected=info.get('selected'), not_found=info.get('not_found')))))
+        if case.get('spell'):
+            declared = [f for t_ in case['tasks'] for f in t_['targets']]
+            effs = [] if case['sel_none'] else (case['sel'] or case['default'] or [])
+            odd = [f for f in declared if os.path.normpath(f) != f]
+            out.count('A:spellings')
+            if any(f in odd for f in effs):
+                out.count('A:spellings:selected-by-declared-non-normal-target')
+            if any(f not in declared and any(os.path.normpath(f) == os.path.normpath(g) for g in declared) for f in effs):
+                out.count('A:spellings:selected-by-another-spelling-of-a-target')
+            if any(f != g and os.path.normpath(f) == os.path.normpath(g) for f in declared for g in declared):
+                out.count('A:spellings:two-targets-same-path')
+            if any(f not in declared and any(os.path.normpath(f) == os.path.normpath(g) for g in declared) for t_ in case['tasks'] for f in t_['file_dep']):
+                out.count('A:spellings:file_dep-another-spelling-of-a-target')
+            if any(f in odd for t_ in case['tasks'] for f in t_['file_dep']):
+                out.count('A:spellings:file_dep-on-declared-non-normal-target')
+        if case.get('scripted') == 'spelling':
+            out.count('A:scripted-target-spelling')
+        elif case.get('scripted'):
             out.count('A:scripted-subtask-placeholder+regex')
         elif len(info.get('created', [])) >= 2 and any(n.startswith('_regex_target') for n in info['created']) \
                 and any(not n.startswith('_regex_target') for n in info['created']):
@@ -532,6 +659,28 @@ class RecReporter:
     def complete_run(self): pass
 
 
+def spell_b(rng, d, base, plain=0.5):
+    """a string naming the file <d>/<base>; runs have d as cwd and d/sub exists.  plain = how often the normal absolute path"""
+    if rng.random() < plain:
+        return os.path.join(d, base)
+    return rng.choice([base, './' + base, 'sub/../' + base, './/' + base, d + '//' + base, d + '/./' + base,
+                       os.path.join(d, 'sub', '..', base)])
+
+
+def same_file_b(d, f, g):
+    return os.path.normpath(os.path.join(d, f)) == os.path.normpath(os.path.join(d, g))
+
+
+def respell_b(rng, d, f):
+    """another string for the file f names"""
+    base = os.path.relpath(os.path.normpath(os.path.join(d, f)), d)
+    for _ in range(20):
+        g = spell_b(rng, d, base, plain=0.3)
+        if g != f:
+            return g
+    return './' + base
+
+
 def gen_b(rng, d):
     """definitions as plain data.  Dependencies point to tasks defined later (no cycles; C09 is about those)."""
     n_plain = rng.randrange(2, 7)
@@ -573,7 +722,7 @@ def gen_b(rng, d):
         if cands and rng.random() < 0.18:
             t['setup'] = [rng.choice(cands)]
         if not is_delayed_sub and rng.random() < 0.5:
-            f = os.path.join(d, 'out%d.txt' % file_no[0]); file_no[0] += 1
+            f = spell_b(rng, d, 'out%d.txt' % file_no[0]); file_no[0] += 1
             t['targets'] = [f]
             producers[f] = nm
         return t
@@ -599,7 +748,8 @@ def gen_b(rng, d):
                     t['task_dep'].append(rng.choice(pats))
             for f, p in producers.items():
                 if p in later(nm) and rng.random() < 0.25:
-                    t['file_dep'].append(f)
+                    # in the declared spelling: implicit task_dep on the producer; in another one: none
+                    t['file_dep'].append(f if rng.random() < 0.7 else respell_b(rng, d, f))
             if rng.random() < 0.15:
                 f = os.path.join(d, 'src%d.txt' % file_no[0]); file_no[0] += 1
                 t['file_dep'].append(f)
@@ -622,6 +772,8 @@ def gen_b(rng, d):
     default = None
     if rng.random() < 0.4:
         default = rng.sample(order, rng.randrange(1, min(3, len(order)) + 1))
+        if producers and rng.random() < 0.3:   # a target, by the declared string
+            default.insert(rng.randrange(0, len(default) + 1), rng.choice(sorted(producers)))
     return dict(dir=d, blocks=blocks, order=order, defs=defs, dsubs=dsubs, default=default)
 
 
@@ -816,6 +968,15 @@ def input_shape(spec, sel, single):
     for i, f in enumerate(sel[:-1]):
         if '*' in f and any(defs[n].get('pos_arg') or defs[n].get('params') for n in fnmatch.filter(order, f)):
             return 'elements-after-glob'      # a pattern matching a task that takes arguments, followed by more elements
+    # spellings: an element that names the file of a declared target in non-normal form or in another spelling than the
+    # declared one; a file_dep that does so
+    d = spec['dir']
+    declared = [g for t in list(defs.values()) + list(dsubs.values()) for g in t['targets']]
+    odd = lambda f: any(same_file_b(d, f, g) and (f != g or os.path.normpath(g) != g) for g in declared)
+    if any('*' not in f and f not in defs and odd(f) for f in sel):
+        return 'target-spelling'
+    if any(odd(f) for t in list(defs.values()) + list(dsubs.values()) for f in t['file_dep']):
+        return 'target-spelling'
     return None
 
 
@@ -841,9 +1002,11 @@ def run_b(ctx, spec, argv, idx):
     if spec['default'] is not None:
         cfg['default_tasks'] = list(spec['default'])
     ns['DOIT_CONFIG'] = cfg
+    for sub in ('sub', 'out'):
+        os.makedirs(os.path.join(d, sub), exist_ok=True)
     for t in list(spec['defs'].values()) + list(spec['dsubs'].values()):
         for f in t['file_dep'] + t['targets']:
-            with open(f, 'w') as fh:
+            with open(os.path.join(d, f), 'w') as fh:     # relative names are relative to the cwd of the run
                 fh.write('x')
     with Quiet(d) as q:
         try:
@@ -885,7 +1048,23 @@ def directed_b(d):
     dlr = lambda regex: spec([['plain', 'a', []], ['plain', 'b', []], ['delayed', 'd', ['1', '2']]],
                              {'a': T(), 'b': T(), 'd': T('delayed', executed=None, regex=regex, subs=['d:1', 'd:2'])},
                              {'d:1': T('dsub', targets=[g1]), 'd:2': T('dsub', task_dep=['b'], targets=[g2])})
-    return [
+    # spellings of one path: gen declares its target as `tg`; use has file_dep `fd`
+    spl = lambda tg, fd=(), default=None: spec([['plain', 'p', []], ['plain', 'gen', []], ['plain', 'use', []], ['plain', 'z', []]],
+                                               {'p': T(), 'gen': T(task_dep=['p'], targets=[tg]), 'use': T(file_dep=list(fd)), 'z': T()},
+                                               default=default)
+    spelled = [
+        ('target-declared-dot-slash', spl('./out/gen.txt'), ['./out/gen.txt'], False),
+        ('target-normal-form-of-declared', spl('./out/gen.txt'), ['out/gen.txt'], False),
+        ('target-declared-double-slash', spl('out//gen.txt'), ['z', 'out//gen.txt'], False),
+        ('target-declared-dotdot', spl('sub/../gen.txt'), ['sub/../gen.txt'], True),
+        ('target-declared-absolute-non-normal', spl(d + '/./out/gen.txt'), [d + '/./out/gen.txt', 'z'], False),
+        ('target-declared-absolute-asked-relative', spl(os.path.join(d, 'out/gen.txt')), ['out/gen.txt'], False),
+        ('target-declared-spelling-default_tasks', spl('./out/gen.txt', default=['./out/gen.txt']), [], False),
+        ('target-other-spelling-default_tasks', spl('./out/gen.txt', default=['z', 'out/gen.txt']), [], False),
+        ('file_dep-declared-spelling', spl('./out/gen.txt', ['./out/gen.txt']), ['use'], False),
+        ('file_dep-other-spelling', spl('./out/gen.txt', ['out/gen.txt']), ['use'], False),
+    ]
+    return spelled + [
         # (label, spec, selection, single, --auto-delayed-regex)
         ('subtask+regex-target', dlr(rx), ['d:1', g2], False, False),
         ('subtask+regex-target-auto', dlr(None), ['d:1', g2], False, True),
@@ -924,7 +1103,8 @@ def check_b(ctx, out, spec, sel, single, ci, label=None, auto=False):
     res = run_b(ctx, spec, argv, ci)
     esc = repr(re.escape(d))[1:-1]      # the directory as it appears inside a rendered target_regex
     short = lambda s: s.replace(esc, '<dir>').replace(d, '<dir>')
-    case = dict(dodo=short(res['src']), argv=[short(a) for a in argv], default_tasks=spec['default'])
+    case = dict(dodo=short(res['src']), argv=[short(a) for a in argv],
+                default_tasks=None if spec['default'] is None else [short(a) for a in spec['default']])
     status = [nm for ev, nm in res['log'] if ev == 'status']
     processed = set(nm for nm in status if not nm.startswith('_regex_target'))
     out.count('B:%s%s%s' % ('exit3' if exp['rc'] == 3 else 'run', ':single' if single else '', ':delayed' if dsubs else ''))
@@ -934,6 +1114,13 @@ def check_b(ctx, out, spec, sel, single, ci, label=None, auto=False):
         out.count('B:no-positional:' + ('default_tasks' if spec['default'] is not None else 'all'))
     out.evaluations += 1
     ishape = input_shape(spec, eff, single)
+    declared = [g for t in list(defs.values()) + list(dsubs.values()) for g in t['targets']]
+    if any(f in declared and os.path.normpath(f) != f for f in (eff or [])):
+        out.count('B:spellings:selected-by-declared-non-normal-target')
+    if any(f not in declared and '*' not in f and any(same_file_b(d, f, g) for g in declared) for f in (eff or [])):
+        out.count('B:spellings:selected-by-another-spelling-of-a-target')
+    if any(f not in declared and any(same_file_b(d, f, g) for g in declared) for t in defs.values() for f in t['file_dep']):
+        out.count('B:spellings:file_dep-another-spelling-of-a-target')
 
     def viol(what, shape, force=False):
         shape = shape if force else (ishape or shape)
@@ -954,6 +1141,20 @@ def check_b(ctx, out, spec, sel, single, ci, label=None, auto=False):
                         'matched by the target regexes' % ' '.join(short(a) for a in argv), 'subtask-placeholder-regex-traceback', force=True)
     if res['traceback']:
         return viol('doit run crashed with a traceback during selection/run', 'run-crash')
+    # selection by target is by the declared string: such an element is never the rejected one; another spelling of a
+    # declared target (that nothing else accounts for) is
+    cmdline = '`doit %s`%s' % (' '.join(short(a) for a in argv), '' if sel else ' with default_tasks %s' % case['default_tasks'])
+    if exp['rc'] == 0 and res['rc'] == 3:
+        for f in eff or []:
+            if f in declared and f not in defs and ('invalid parameter: "%s"' % f) in res['stderr']:
+                prod = [nm for nm, t in list(defs.items()) + list(dsubs.items()) if f in t['targets']]
+                return viol('%s: %r is rejected (exit 3) although task %s declares exactly this string as its target'
+                            % (cmdline, short(f), prod), 'target-spelling', force=True)
+    if exp['rc'] == 3 and not exp.get('late') and not exp['delayed'] and res['rc'] != 3 and exp['unknown'] not in declared \
+            and any(same_file_b(d, exp['unknown'], g) for g in declared):
+        return viol('%s: %r is no task and no declared target (only another spelling of %s), yet it is accepted: exit code %s, started %s'
+                    % (cmdline, short(exp['unknown']), [short(g) for g in declared if same_file_b(d, exp['unknown'], g)], res['rc'], status),
+                    'target-spelling', force=True)
     if exp['rc'] == 3:
         out.nontrivial.add(('B3', ci))
         if exp.get('late'):
@@ -1025,7 +1226,10 @@ def random_selection(rng, spec):
                 toks.append('-z')
             return toks
         if r < 0.58 and targets:
-            return [rng.choice(targets)]
+            f = rng.choice(targets)               # by the declared string
+            if rng.random() < 0.2:
+                f = respell_b(rng, d, f)          # by another spelling of the same file: an unknown name
+            return [f]
         if r < 0.76:
             pats = ['*', 'g:*', 't*', '*:x', 'zz*', 't[12]', 'h:*', 't[12]*', 'k*']
             if dsubs:   # a pattern must not depend on whether the delayed sub-tasks exist yet
@@ -1086,7 +1290,9 @@ def replay(ctx, payload):
         print('tasks    :', [(t['name'], t['loader']) for t in case['tasks']])
         print('process  :', None if case.get('sel_none') else case['sel'], ' auto_delayed_regex =', case['auto'])
         print('recorded :', payload.get('what'), case.get('observed'))
-        print('now      : outcome kind %s, tasks created by process(): %s %s' % (obs[:1], info.get('created'), info.get('exc', '')))
+        print('targets  :', [(t['name'], t['targets'], t['file_dep']) for t in case['tasks'] if t['targets'] or t['file_dep']])
+        print('now      : outcome kind %s, selected: %s, not_found: %r, tasks created by process(): %s %s'
+              % (obs[:1], info.get('selected'), info.get('not_found'), info.get('created'), info.get('exc', '')))
         return 0
     if 'dodo' not in case:
         print(payload)
@@ -1109,9 +1315,11 @@ def replay(ctx, payload):
     exec(compile(src, path, 'exec'), ns)
     ns['DOIT_CONFIG'] = {'dep_file': os.path.join(d, 'db'), 'backend': 'json', 'reporter': RecReporter, 'verbosity': 0}
     if case.get('default_tasks') is not None:
-        ns['DOIT_CONFIG']['default_tasks'] = case['default_tasks']
-    for f in set(re.findall(re.escape(d) + r'/[\w.]+\.txt', src)):
-        open(f, 'w').write('x')
+        ns['DOIT_CONFIG']['default_tasks'] = [a.replace('<dir>', d) for a in case['default_tasks']]
+    for sub in ('sub', 'out'):
+        os.makedirs(os.path.join(d, sub), exist_ok=True)
+    for f in set(re.findall(r"'([^'*\\]+\.(?:txt|o))'", src)):     # every file name of the module, whatever its spelling
+        open(os.path.join(d, f), 'w').write('x')
     with Quiet(d) as q:
         rc = DoitMain(ModuleTaskLoader(ns), config_filenames=()).run(argv)
     print(src)
